@@ -14,9 +14,9 @@ from ..sds_parser import SdsType
 # ------------------------------------------------------------------------------------------------------ terms
 # A term is (ctor, children...) ; leaves are (name,)
 
-LEAVES = ["int", "str", "bool", "float", "None", "Any", "LC", "OC", "Color", "T", "TB", "FwdLC"]
+LEAVES = ["int", "str", "bool", "float", "None", "Any", "LC", "OC", "Color", "T", "TB", "FwdLC", "NT", "TD", "DC"]
 LEAF_SRC = {"LC": "LC_@MOD@", "FwdLC": '"LC_@MOD@"'}
-LEAF_IMG = {"int": "Int", "str": "String", "bool": "Boolean", "float": "Float", "Any": "Any", "LC": "LC", "OC": "OC", "Color": "Color", "T": "T", "TB": "TB", "FwdLC": "LC"}
+LEAF_IMG = {"int": "Int", "str": "String", "bool": "Boolean", "float": "Float", "Any": "Any", "LC": "LC", "OC": "OC", "Color": "Color", "T": "T", "TB": "TB", "FwdLC": "LC", "NT": "NT", "TD": "TD", "DC": "DC"}
 
 UNARY = ["list", "List", "Sequence", "Collection", "set", "tuple1", "Optional", "orNone", "Gen", "Callable0", "CallableNone"]
 BINARY = ["dict", "Mapping", "tuple2", "Union", "bar", "Callable1"]
@@ -255,14 +255,19 @@ HEADER = (
     "import typing\n"
     "from typing import Annotated, Any, Final, Literal, Optional, TypeVar, Union\n"
     "from collections.abc import Callable, Collection, Iterable, Mapping, Sequence\n"
-    "from vpkg.support import OC, Color, Gen\n\n"
+    "from vpkg.support import DC, NT, OC, TD, Color, Gen\n\n"
     'T = TypeVar("T")\nTB = TypeVar("TB", bound=int)\n\n\n'
     "class LC_@MOD@:\n    pass\n\n\n"
 )
 SUPPORT = (
-    "from enum import Enum\nfrom typing import Generic, TypeVar\n\n_G = TypeVar('_G')\n\n\n"
-    "class OC:\n    pass\n\n\nclass Color(Enum):\n    RED = 1\n\n\nclass Gen(Generic[_G]):\n    pass\n"
+    "from dataclasses import dataclass\nfrom enum import Enum\nfrom typing import Generic, NamedTuple, TypedDict, TypeVar\n\n_G = TypeVar('_G')\n\n\n"
+    "class OC:\n    pass\n\n\nclass Color(Enum):\n    RED = 1\n\n\nclass Gen(Generic[_G]):\n    pass\n\n\n"
+    "class NT(NamedTuple):\n    x: int\n\n\nclass TD(TypedDict):\n    a: int\n\n\n@dataclass\nclass DC:\n    a: int\n"
 )
+
+
+def _size(t) -> int:
+    return 1 + sum(_size(k) for k in t[1:] if isinstance(k, tuple))
 
 
 def _culprit(t, failing: set) -> tuple:
@@ -330,11 +335,11 @@ def run(rep: Report, tier: str, seed: int) -> None:
                         observed["inst_attr"] = norm(m.type)
             exp = ref(t)
 
-            def viol(clause, pos, detail) -> None:
-                cul = _culprit(t, failing.setdefault(pos, set()))
-                failing[pos].add(t)
+            def viol(clause, pos, detail, t=t, c=c) -> None:
+                # attribution to the smallest failing sub-term must not depend on the order in which groups complete:
+                # failures are buffered and attributed after the run, smallest terms first
                 mini = {f"{PKG}/__init__.py": "", f"{PKG}/support.py": SUPPORT, f"{PKG}/m.py": (HEADER + c.src).replace("@MOD@", "m000000")}
-                rep.violation(clause, f"{clause}:{pos}:{ctor_shape(cul)}", {"term": c.label, "annotation": src(t), "position": pos, **detail}, files=mini, src_rel=PKG, opts=opts)
+                pending.append((_size(t), c.label, clause, pos, t, {"term": c.label, "annotation": src(t), "position": pos, **detail}, mini, opts))
 
             for pos in POSITIONS:
                 if pos not in observed:
@@ -380,7 +385,12 @@ def run(rep: Report, tier: str, seed: int) -> None:
                     rep.ok("position-independence")
 
     groups = [(cases[i : i + per_group], Opts()) for i in range(0, len(cases), per_group)]
+    pending: list[tuple] = []
     run_packed(groups, build, on_group, stats)
+    for _sz, _label, clause, pos, t, detail, mini, opts in sorted(pending, key=lambda x: (x[0], x[1], x[2], x[3])):
+        cul = _culprit(t, failing.setdefault(pos, set()))
+        failing[pos].add(t)
+        rep.violation(clause, f"{clause}:{pos}:{ctor_shape(cul)}", detail, files=mini, src_rel=PKG, opts=opts)
     rep.extra.update(stats)
     rep.extra["terms"] = len(cases)
     rep.assumptions = [
